@@ -251,3 +251,18 @@ def _xw(c):
     c.ensures("len(export_manager.routines) == 1 and list(export_manager.routines.keys())[0] == 'combine_stereo'", "one-sample-routine-the-image's-stereo-pairing")
     c.ensures("len(export_manager.samples) == 0", "starts-with-an-empty-batch")
     c.modifies("image._routines")
+
+
+# ================================================================================================== C10: the AKAI path-token normaliser
+# AkaiImageParser._sanitize_string (applied to every path token and every sibling name before they are compared): upper case, blanks
+# trimmed, and exactly ONE trailing colon dropped - so `A` and `A:` name the same partition, while `A::` is another (non-existing) name
+# and the empty token stays empty.
+@contract("smpl_extract.akai.image:AkaiImageParser._sanitize_string", props=["C10"])
+def _akai_sani(c):
+    c.self_obj(("self", "smpl_extract.akai.image:AkaiImageParser", {}))
+    c.param("input_str", "str")
+    c.returns("str")
+    c.define("t", [], "py_strip(py_upper(input_str))")
+    c.ensures("implies(strlen(t()) > 0 and char_at(t(), strlen(t()) - 1) == ':', result == substr(t(), 0, strlen(t()) - 1))", "one-trailing-colon-is-dropped")
+    c.ensures("implies(strlen(t()) == 0 or char_at(t(), strlen(t()) - 1) != ':', result == t())", "anything-else-is-kept")
+    c.modifies()
